@@ -2,6 +2,7 @@ package c14
 
 import (
 	"hv/fw"
+	"hv/util"
 	"os"
 	"regexp"
 	"strings"
@@ -122,4 +123,39 @@ func TestImplErrPrograms(t *testing.T) {
 		}
 	}
 	t.Log(kinds)
+}
+
+// TestHostValsPrograms: every program of the hostvals family is accepted and runs to its end on the
+// VM — under the harness host and under the repository's testing host — and, unless it imports the
+// VM-only `http`, on the interpreter (otherwise the family would not exercise what it claims to).
+func TestHostValsPrograms(t *testing.T) {
+	for seed := uint64(1); seed <= 200; seed++ {
+		b := famHostVals(fw.NewRng(seed), Poison{})
+		ob := Observe(b.Src, ObsOpts{RepoHost: b.RepoHost})
+		http := strings.Contains(b.Src["main"], "from net;")
+		ok := ob.Ran && ob.VMOutcome == "ok" && strings.Contains(ob.VMOutput, "end ")
+		if http {
+			ok = ok && strings.Contains(ob.TreeOutcome, "ImportError")
+		} else {
+			ok = ok && ob.TreeOutcome == "ok" && strings.Contains(ob.TreeOutput, "end ")
+		}
+		if b.RepoHost {
+			ok = ok && strings.HasPrefix(ob.RepoHostVM, "outcome: ok\n") && strings.Contains(ob.RepoHostVM, "end ")
+		}
+		if !ok {
+			t.Errorf("seed %d: ran=%v\ndiags: %s\nvm: %s\ntree: %s\nrepo host: %s\n%s", seed, ob.Ran, ob.Diags, ob.VMOutcome, ob.TreeOutcome, ob.RepoHostVM, b.Src["main"])
+		}
+	}
+}
+
+// TestJSONKeysPrograms: every program of the jsonkeys family is accepted and runs to its end on both
+// back ends and under the repository's testing host.
+func TestJSONKeysPrograms(t *testing.T) {
+	for seed := uint64(1); seed <= 200; seed++ {
+		b := famJSONKeys(fw.NewRng(seed), Poison{})
+		ob := Observe(b.Src, ObsOpts{RepoHost: b.RepoHost})
+		if !ob.Ran || ob.VMOutcome != "ok" || ob.TreeOutcome != "ok" || !strings.HasPrefix(ob.RepoHostVM, "outcome: ok\n") || ob.VMLines < 5 {
+			t.Errorf("seed %d: ran=%v\ndiags: %s\nvm: %s\ntree: %s\nrepo host: %s\n%s", seed, ob.Ran, ob.Diags, ob.VMOutcome, ob.TreeOutcome, util.Clip(ob.RepoHostVM, 300), b.Src["main"])
+		}
+	}
 }
